@@ -47,8 +47,16 @@ def register(R):
 def register_more(R):
     N = "len(listof(self._results))"
     R.fields_of("RawResult", shouldStop="any", failfast="any", current_tags="anyset", testsRun="any")
-    # MultiTestResult.startTestRun is NOT under contract: the inherited reset assigns `self.failfast`, which this class turns
-    # into dispatches to every wrapped result (a property); it is listed under 'not verified' in the evidence notes.
+    # MultiTestResult.startTestRun as a whole is NOT under contract: the inherited reset (and unittest's __init__ inside it)
+    # assigns `self.failfast`, which this class turns into dispatches to every wrapped result (a property), so the parent's
+    # contract -- stated over a raw field -- may not be used for this subclass; the two halves of that property
+    # (_get_failfast, _set_failfast) are under contract below; the composite is listed under 'not verified' in the evidence.
+    # failfast on the multiplexer is a property: reading it is "some wrapped result has it", assigning it is one
+    # __setattr__('failfast', value) on EVERY wrapped result, in order (this is what the inherited reset in startTestRun runs into)
+    R.contract(M + "_set_failfast", props=["C04"], params={"value": "any"}, frame_hist=True, modifies=["$hist"], returns="none",
+               ensures=["HIST() == deliver(old(HIST()), listof(self._results), call('__setattr__', ['failfast', value], {}), %s)" % N])
+    R.contract(M + "_get_failfast", props=["C04"], pure=True, returns="bool",
+               ensures=["result == any(truthy(r.failfast) for r in self._results)"])
     R.contract(M + "_get_shouldStop", props=["C04"], pure=True, returns="bool",
                ensures=["result == any(truthy(r.shouldStop) for r in self._results)"])
     R.contract(M + "wasSuccessful", props=["C04", "C08"], frame_hist=True, modifies=["$hist"], returns="bool",
